@@ -368,3 +368,67 @@ def deciding_conditions(f, block, sym=None):
             vals.append('else:' + ','.join(str(v) for v, _ in t['targets']))
         out.add((switch_condition(f, sblk, sym), '|'.join(vals)))
     return out
+
+
+def named_root(f, defs, op, depth=0):
+    """(local, name) of the named variable an operand refers to, following only borrows / copies / moves (no calls)"""
+    from ..engine.cfg import op_place
+    p = op_place(op) if isinstance(op, dict) else op
+    for _ in range(16):
+        if p is None:
+            return (None, None)
+        l = p[0]
+        if l in f.names:
+            return (l, f.names[l])
+        ds = defs.get(l, [])
+        if len(ds) != 1 or ds[0][1] != 'assign':
+            return (l, None)
+        v = ds[0][2]
+        if v['r'] == 'ref':
+            p = v['p']
+        elif v['r'] in ('use', 'cast'):
+            p = op_place(v['a'])
+        else:
+            return (l, None)
+    return (None, None)
+
+
+# --------------------------------------------------------------------------------------------- swapped arguments
+def swapped_arguments_rule(ctx, rule_id, scope_pred, floor=None):
+    """a call to a workspace function passes the variable named like parameter B for parameter A and the variable named like
+    A for B (exact cross swap of two same-typed parameters)"""
+    prog = ctx.prog
+    ctx.rule(rule_id, 'no call passes, for two parameters p and q of the callee that have the same type, a value named q for p and a value '
+             'named p for q (old/new row images, source/destination, parent/child handed over in swapped order)')
+    checked = 0
+    for f in prog.fns.values():
+        if is_test(f) or f.dk == 'Promoted' or not scope_pred(f):
+            continue
+        s = None
+        for i, t in f.calls():
+            cn = callee_name(t) or ''
+            if not cn.startswith('vibesql_'):
+                continue
+            cands = prog.by_nice.get(cn)
+            if not cands:
+                continue
+            callee = cands[0]
+            if callee.argc != len(t['args']) or callee.argc < 2:
+                continue
+            pnames = [callee.names.get(k) for k in range(1, callee.argc + 1)]
+            ptypes = [callee.locals[k] for k in range(1, callee.argc + 1)]
+            fdefs = defs_of(f)
+            actual = [named_root(f, fdefs, a)[1] for a in t['args']]
+            checked += 1
+            for a_i in range(len(pnames)):
+                for b_i in range(a_i + 1, len(pnames)):
+                    pa, pb = pnames[a_i], pnames[b_i]
+                    if not pa or not pb or pa == pb or ptypes[a_i] != ptypes[b_i]:
+                        continue
+                    if actual[a_i] == pb and actual[b_i] == pa:
+                        k = f'{rule_id.split(".")[-1]}/swapped/{f.nice}/{callee.nice.rsplit("::", 1)[1]}/{pa}-{pb}'
+                        ctx.finding(k, f'{f.nice}: {callee.nice.rsplit("::",1)[1]}(.. {pa}, {pb} ..) is called with `{actual[a_i]}` for {pa} and '
+                                    f'`{actual[b_i]}` for {pb}: the two arguments are swapped', f'{f.file}:{t["l"]}')
+    ctx.instance(f'{rule_id.split(".")[-1]}/swapped', {'rule': rule_id, 'calls_with_named_parameters_checked': checked})
+    if floor is not None:
+        ctx.floor(f'{rule_id} calls checked for swapped arguments', checked, floor)
